@@ -43,12 +43,12 @@ extern void mpt_ticks_linear(MPT_STRUCT(dpoint) *pts, size_t nt, double dx, doub
 	for (i = 1; i <= nt; i++) {
 		double x = i * dx, y = i * dy;
 		
+		pts += 2;
+		
 		pts[0].x = bx + x;
 		pts[0].y = by + y;
 		pts[1].x = tx + x;
 		pts[1].y = ty + y;
-		
-		pts += 2;
 	}
 }
 
